@@ -29,22 +29,43 @@ KT = "crate::kbucket::KBucketsTable::"
 def admission_guards(b, prov, g, rec_roots):
     """(filter pass edges, contactable pass edges) for the record whose roots are rec_roots"""
     filt, cont = [], []
+
+    def classify(x):
+        """('filter' | 'contactable', polarity) if the boolean expression x is (the negation of) one of the two admission tests"""
+        neg = False
+        while x[0] == "un" and x[1] == "Not":
+            x, neg = x[2], not neg
+        if x[0] == "call" and x[1] == "<indirect>" and len(x[2]) == 2:
+            fn_e, arg = x[2]
+            if fmt_short(fn_e).endswith("config.table_filter") and roots(arg) == rec_roots:
+                return "filter", not neg
+        if x[0] == "call" and re.search(r"Option::is_(some|none)$", short(x[1])):
+            y = x[2][0]
+            if y[0] == "call" and y[1].endswith("IpMode::get_contactable_addr") and roots(y[2][1]) == rec_roots and fmt_short(y[2][0]).endswith("ip_mode"):
+                return "contactable", short(x[1]).endswith("is_some") != neg
+        return None
     for bi, t, e in g.switches():
+        f, tr = g.bool_edges(bi)
+        c = classify(e)
+        if c:
+            (filt if c[0] == "filter" else cont).append((bi, tr if c[1] else f))
+            continue
         inner, neg = e, False
         while inner[0] == "un" and inner[1] == "Not":
             inner, neg = inner[2], not neg
-        f, tr = g.bool_edges(bi)
-        if inner[0] == "call" and inner[1] == "<indirect>" and len(inner[2]) == 2:
-            fn_e, arg = inner[2]
-            if fmt_short(fn_e).endswith("config.table_filter") and roots(arg) == rec_roots:
-                filt.append((bi, f if neg else tr))
-        if inner[0] == "call" and re.search(r"Option::is_(some|none)$", short(inner[1])):
-            x = inner[2][0]
-            if x[0] == "call" and x[1].endswith("IpMode::get_contactable_addr") and roots(x[2][1]) == rec_roots and \
-                    fmt_short(x[2][0]).endswith("ip_mode"):
-                is_some = short(inner[1]).endswith("is_some")
-                want_true = is_some != neg
-                cont.append((bi, tr if want_true else f))
+        if inner[0] == "phi":
+            # the tests kept in a flag (`let admissible = filter(enr) && contactable(enr).is_some(); if !admissible { .. }`): the flag is
+            # `false` (an earlier conjunct failed) or the last conjunct, so where it is true the last conjunct holds; dually for `||`
+            consts = {const_int_of(a) for a in inner[1] if const_int_of(a) in (0, 1)}
+            rest = [a for a in inner[1] if const_int_of(a) not in (0, 1)]
+            if len(rest) == 1 and len(consts) == 1:
+                c = classify(rest[0])
+                if c:
+                    flag_true, flag_false = (f, tr) if neg else (tr, f)
+                    if consts == {0} and c[1]:
+                        (filt if c[0] == "filter" else cont).append((bi, flag_true))
+                    elif consts == {1} and not c[1]:
+                        (filt if c[0] == "filter" else cont).append((bi, flag_false))
         if e[0] == "discr" and e[1][0] == "call" and e[1][1].endswith("IpMode::get_contactable_addr") and roots(e[1][2][1]) == rec_roots:
             cont += [(bi, tb) for v, tb in t.vals if v == 1]
     return filt, cont
